@@ -19,8 +19,10 @@ type SolverSpec struct {
 }
 
 var (
-	SolverZ3    = SolverSpec{"z3-4.8.12", []string{"z3", "-in"}}
-	SolverZ3New = SolverSpec{"z3-5.1.0", []string{"z3-new", "-in"}}
+	// -memory: a session that blows up ends itself instead of being picked by the kernel's OOM killer (which may pick
+	// another worker's solver); the executor treats the death as an undecided query
+	SolverZ3    = SolverSpec{"z3-4.8.12", []string{"z3", "-in", "-memory:3000"}}
+	SolverZ3New = SolverSpec{"z3-5.1.0", []string{"z3-new", "-in", "-memory:3000"}}
 	SolverCVC5  = SolverSpec{"cvc5-1.0", []string{"cvc5", "--incremental", "--lang=smt2", "--produce-models", "--strings-exp"}}
 )
 
